@@ -159,19 +159,30 @@ def run_harnesses(repo, hs, jobs=6):
         done = re.search(r"Complete - (\d+) successfully verified harnesses, (\d+) failures, (\d+) total", out)
         checks = [int(x) for x in re.findall(r"\*\* \d+ of (\d+) failed", out)]
         covers = [int(x) for x in re.findall(r"\*\* (\d+) of \d+ cover properties satisfied", out)]
+        # per-thread attribution: "Thread N: Checking harness X..." then a result block "Thread N: ..."
+        per = {}
+        cur = {}
+        parts = re.split(r"^(Thread \d+): ", out, flags=re.M)
+        for k in range(1, len(parts) - 1, 2):
+            th, body = parts[k], parts[k + 1]
+            mh = re.match(r"Checking harness (\S+?)\.\.\.", body)
+            if mh:
+                cur[th] = mh.group(1)
+                body = body[mh.end():]
+            if "VERIFICATION:-" in body and th in cur:
+                per[cur[th]] = _classify(body, secs)
         redo = []
         for i, h in enumerate(hs):
-            if done and int(done.group(3)) == len(hs) and full[h["name"]] not in failed:
-                res[h["name"]] = {"status": "ok", "secs": round(secs, 1), "detail": "", "checks": 0, "covers": 0}
+            fn = full[h["name"]]
+            agree = done and int(done.group(3)) == len(hs)
+            if agree and fn not in failed and (fn not in per or per[fn]["status"] == "ok"):
+                res[h["name"]] = per.get(fn) or {"status": "ok", "secs": round(secs, 1), "detail": "", "checks": 0, "covers": 0}
+            elif agree and fn in failed and fn in per and per[fn]["status"] == "timeout":
+                res[h["name"]] = per[fn]      # resource verdict: running it again alone would only repeat the wait
             else:
                 redo.append(h)
-        if covers and min(covers) == 0:
+        if covers and min(covers) == 0 and not all(full[h["name"]] in per for h in hs):
             redo = list(hs)      # some harness has an unreachable cover: find out which, exactly
-        elif done and not redo:
-            # distribute the per-harness counts (order unknown, only the totals are used)
-            for i, h in enumerate(hs):
-                res[h["name"]]["checks"] = checks[i] if i < len(checks) else 0
-                res[h["name"]]["covers"] = covers[i] if i < len(covers) else 0
         for h in redo:
             cmd, o1, s1 = _cargo_kani(dst, env, [full[h["name"]]], 1, h["timeout"])
             cmds.append(cmd)
@@ -283,6 +294,6 @@ if __name__ == "__main__":
     hs = [u for u in units() if not a.only or u["name"] in a.only]
     res, cmds = run_harnesses(a.repo, hs, a.j)
     for k, v in res.items():
-        print(k, v["status"], v["secs"])
+        print(k, v["status"], v["secs"], flush=True)
         if v["status"] != "ok":
             print(v["detail"])
